@@ -58,6 +58,29 @@ func c18GenValid(c *Ctx) string {
 	return sb.String()
 }
 
+// c18GenLong: a LONG valid value (1-5 kB): a short unit of shell-special characters repeated,
+// behind a prefix of 0-7 ordinary bytes, so that over the cases every special character sits at
+// every offset modulo a small window (line-length, buffer-boundary and look-behind logic in the
+// code under test sees backslash runs, `$`, backtick, quote and newline at its break points)
+func c18GenLong(c *Ctx) string {
+	units := []string{"\\", "\\\\$X", "\\$", "$X\\", "`id`\\", "\"\\", "a\\", "\\\n", "$(id)", "é\\", "\\\\\\a", "ab", "☺$\\"}
+	var unit string
+	if c.Rng.Intn(3) == 0 {
+		for i, n := 0, 1+c.Rng.Intn(6); i < n; i++ {
+			unit += []string{"\\", "\\", "$", "`", "\"", "a", "\n", "X", " "}[c.Rng.Intn(9)]
+		}
+	} else {
+		unit = units[c.Rng.Intn(len(units))]
+	}
+	want := 1000 + c.Rng.Intn(4000)
+	var sb strings.Builder
+	sb.WriteString("abcdefg"[:c.Rng.Intn(8)])
+	for sb.Len() < want {
+		sb.WriteString(unit)
+	}
+	return sb.String()
+}
+
 // arbitrary bytes without NUL (the "extension" domain)
 func c18GenBytes(c *Ctx) string {
 	s := []byte(c18GenValid(c))
@@ -71,6 +94,13 @@ func c18GenBytes(c *Ctx) string {
 		s = append(s[:pos], append([]byte{b}, s[pos:]...)...)
 	}
 	return string(s)
+}
+
+func c18GenValidOrLong(c *Ctx) string {
+	if c.Rng.Intn(8) == 0 {
+		return c18GenLong(c)
+	}
+	return c18GenValid(c)
 }
 
 func c18Nontrivial(s string) bool {
@@ -183,7 +213,7 @@ func runC18(c *Ctx) {
 		}
 	}()
 	r := c.Res
-	r.Rule = "strings: corpus + all single bytes 1..255 in 3 contexts + all (backslash,byte) pairs + PRNG mix of shell metacharacters, expansions, escapes, ASCII and non-ASCII runes (valid stream) and the same with invalid bytes inserted (extension stream); non-trivial = contains \\ \" $ ` newline or a byte >= 0x80; distinct = distinct input string. Each case: Go quoter vs Lean quote (byte equality), utf8.ValidString vs Lean validUtf8, /bin/sh and bash --posix on the Go-quoted word vs the original (property oracle) and vs Lean dqEval (shell-model validation); formatArgs cases: Go vs Lean formatArgs and real shells' word lists vs Lean shWords vs expected"
+	r.Rule = "strings: corpus + all single bytes 1..255 in 3 contexts + all (backslash,byte) pairs + PRNG mix of shell metacharacters, expansions, escapes, ASCII and non-ASCII runes (valid stream) and the same with invalid bytes inserted (extension stream); non-trivial = contains \\ \" $ ` newline or a byte >= 0x80; distinct = distinct input string. Each case: Go quoter vs Lean quote (byte equality), utf8.ValidString vs Lean validUtf8, /bin/sh and bash --posix on the Go-quoted word vs the original (property oracle) and vs Lean dqEval (shell-model validation); formatArgs cases: Go vs Lean formatArgs and real shells' word lists vs Lean shWords vs expected; job scripts: every shipped template x generated jobs (metacharacters in command, arguments, environment, paths, fork keys, account, resources mapping) and mutated templates: real jobScript vs Lean jobScript vs Lean renderScript byte for byte, Lean shToks of the real script vs the tokens of theorem jobScript_tokens; shell lines: generated command lines (Go-quoted / single-quoted / escaped / bare words, continuations, comments, > and N> redirections), metacharacter soup and x<byte>x for every byte: generator intent vs Lean shToks vs dash and bash; negative witnesses replayed on the real code and shells"
 	shells := c18Shells()
 	shScratch = c.Scratch
 	if len(shells) == 0 {
@@ -218,6 +248,9 @@ func runC18(c *Ctx) {
 	}
 	for i := 0; i < n; i++ {
 		valid = append(valid, c18GenValid(c))
+	}
+	for i := 0; i < 20+n/100; i++ {
+		valid = append(valid, c18GenLong(c))
 	}
 	for i := 0; i < n/5; i++ {
 		ext = append(ext, c18GenBytes(c))
@@ -346,12 +379,12 @@ func runC18(c *Ctx) {
 		ne := c.Rng.Intn(4)
 		for j := 0; j < ne; j++ {
 			k := fmt.Sprintf("%c%c_%d", 'A'+c.Rng.Intn(26), 'a'+c.Rng.Intn(26), c.Rng.Intn(3))
-			fc.envs[k] = c18GenValid(c)
+			fc.envs[k] = c18GenValidOrLong(c)
 		}
-		fc.cmd = c18GenValid(c)
+		fc.cmd = c18GenValidOrLong(c)
 		na := c.Rng.Intn(4)
 		for j := 0; j < na; j++ {
-			fc.argv = append(fc.argv, c18GenValid(c))
+			fc.argv = append(fc.argv, c18GenValidOrLong(c))
 		}
 		fc.goOut = core.VerifFormatArgs(fc.envs, fc.cmd, fc.argv)
 		var es []string
